@@ -115,6 +115,9 @@ let () =
              | "hllc" -> hllc_case farith float_of_n fln ftrunc o
              | "hser" -> hser_case o
              | "mem" -> mem_case o
+             | "scale" -> scale_case farith float_of_n (fun x -> Obj.repr (asin (fl x))) (fun x -> Obj.repr (sin (fl x))) fln
+                            (fun x -> Obj.repr (exp (fl x))) (Obj.repr (Int64.float_of_bits 0x400921FB54442D18L))
+                            (fun x -> let f = fl x in f = infinity || f = neg_infinity) float_of_bits_n bits_n_of_float o
              | "hset" -> hs_case (!u, o)
              | "sizing" -> sizing_case farith float_of_n fln (fun x -> Obj.repr (Float.log2 (fl x))) (fun x -> Obj.repr (Float.ceil (fl x)))
                              ftrunc (Obj.repr (Int64.float_of_bits 0x4005BF0A8B145769L)) float_of_bits_n o
